@@ -359,6 +359,32 @@ def b_sget(ex, st, a, m, c):
     return mk_enum("Option", "None", [])
 
 
+# ------------------------------------------------------------------------------- Box / vec! macro
+
+@builtin(r"^Box::<\[.*; \d+\]>::new_uninit$", "Box::new_uninit (vec! macro): fresh heap slot in the root frame")
+def b_box_uninit(ex, st, a, m, c):
+    ex.fresh += 1
+    slot = 500000 + ex.fresh
+    st.frames[0].locals[slot] = Agg("partial", [])
+    # Box { Unique { NonNull(ptr) } }
+    return Agg("struct:Box", [Agg("struct:Unique", [Ref(0, slot, ())])])
+
+
+@builtin(r"box_assume_init_into_vec_unsafe::<", "vec! macro: Box<[T; N]> -> Vec<T>")
+def b_box_into_vec(ex, st, a, m, c):
+    ref = a[0].fields[0].fields[0]
+    v = ex.load(st, ref)
+    arr = v.fields[1].fields[0].fields[0]
+    return Agg("vec", list(arr.fields))
+
+
+@builtin(r"^std::vec::from_elem::<", "vec![x; n]")
+def b_from_elem(ex, st, a, m, c):
+    if T.is_t(a[1]):
+        raise Unsupported("vec![x; n] with symbolic n")
+    return Agg("vec", [a[0]] * a[1])
+
+
 # ------------------------------------------------------------------------------- iterators
 # An iterator value is Agg("iter:<kind>", state...).  All operations go through references so
 # that state survives re-merging.
